@@ -44,7 +44,10 @@ type C07Case struct {
 	// (adaptation.WithTTRPCOptions), all of them pass-through: "" (none) | client-interceptor
 	// (WithUnaryClientInterceptor) | client-chain (WithChainUnaryClientInterceptor) |
 	// server-interceptor (WithUnaryServerInterceptor) | client+server
-	RtOpts      string `json:"rt_opts,omitempty"`
+	RtOpts string `json:"rt_opts,omitempty"`
+	// SyncSwallow: the runtime's SyncFn calls the synchronization callback but does not pass its
+	// error on (it logs it and returns nil, which the public API allows)
+	SyncSwallow bool   `json:"sync_swallow,omitempty"`
 	HookPoint   string `json:"hook_point,omitempty"`
 	HookSleepUs int    `json:"hook_sleep_us,omitempty"`
 }
@@ -452,6 +455,7 @@ func genC07(t *rapid.T) C07Case {
 	if c.Joiner != nil {
 		c.Joiner.Phase = rapid.SampledFrom([]string{"synchronize", "configure", "synchronize"}).Draw(t, "join-phase")
 		c.Joiner.Fault = joinerFaultGen(t, c.Joiner.Idx)
+		c.SyncSwallow = rapid.Bool().Draw(t, "sync-swallow")
 	}
 	if rapid.IntRange(0, 3).Draw(t, "hook") == 0 {
 		c.HookPoint = rapid.SampledFrom([]string{"mux.write.payload", "mux.conn.read", "mux.close", "mux.reader.queue"}).Draw(t, "hook-point")
